@@ -2,6 +2,7 @@
 //! Every sub-command reads NDJSON records on stdin (produced from TLC output by py/verif) and
 //! writes NDJSON results on stdout.  Panics of the code under test are data, not tool errors.
 mod graph;
+mod lexh;
 mod parse;
 mod pathnorm;
 mod pred;
@@ -18,6 +19,7 @@ fn main() {
         "tsort" => graph::run_tsort(&rest),
         "pathnorm" => pathnorm::run(&rest),
         "pred" => pred::run(&rest),
+        "lex" => lexh::run(&rest),
         "parse-expr" => parse::run_expr(&rest),
         "parse-eq" => parse::run_eq(&rest),
         _ => {
